@@ -279,11 +279,14 @@ class AclMachine(Machine):
             self._fail(owner, f"{owner}.refine-structure",
                        f"{where}: block structure {sh_a} != model {sh_m}\n{text}", **disc)
         # -- derived views (queries under the op's memo-fault schedule: a memo must be transparent)
-        self.memo.begin_op(op.get("memo") if op else None)
-        try:
-            self._derived_views(acl, where, disc)
-        finally:
-            self.memo.begin_op(None)
+        if self.prop == "C17":
+            # (owned by C17; in the run of another property a failure here would end the run
+            # before that property's own oracles meet the corrupted state)
+            self.memo.begin_op(op.get("memo") if op else None)
+            try:
+                self._derived_views(acl, where, disc)
+            finally:
+                self.memo.begin_op(None)
         # -- text fix-point
         if fixpoint:
             self._fixpoint(slot, text, where, disc)
@@ -1377,6 +1380,8 @@ class AclMachine(Machine):
             return op
         t = s.randrange(len(self.slots))
         op = self._gen_op(kind, self.slots[t], st)
+        if kind == "scribble_ipnets":
+            self._plan = [(t, "shadow_triple", {})]
         if kind == "tcam" and s.random() < 0.5:
             self._plan = [(t, "set_members", {}), (t, "tcam", {})]
         if kind == "resequence" and self.prop in ("C10", "C17") and s.random() < 0.3:
@@ -1468,9 +1473,15 @@ class AclMachine(Machine):
             return dict(op=kind, i=i, j=j, side=side, operator="eq", items=items,
                         via=s.choice(["items", "line"]))
         if kind == "scribble_ipnets":
+            def ncw(a):
+                cubes = a.members if a.group else (a.cube,)
+                return any(((~c.care & 0xFFFFFFFF) & ((~c.care & 0xFFFFFFFF) + 1)) != 0
+                           for c in (cubes or ()))
             cands = [(i, j, side) for i, b in enumerate(m.blocks) for j, r in enumerate(b.rules)
-                     if r.kind == "ace" for side in ("src", "dst")]
-            i, j, side = s.choice(cands) if cands else (0, 0, "src")
+                     if r.kind == "ace" for side, a in (("src", r.src), ("dst", r.dst))]
+            hot = [(i, j, side) for i, j, side in cands
+                   if ncw(getattr(m.blocks[i].rules[j], side))]
+            i, j, side = s.choice(hot or cands) if cands else (0, 0, "src")
             return dict(op=kind, i=i, j=j, side=side)
         if kind == "set_note":
             return dict(op=kind, i=s.randint(0, 50), j=s.randint(0, 50),
